@@ -67,7 +67,7 @@ Proof.
 Qed.
 
 (** ** Unwinding *)
-Definition is_cool12 (p : pc) : bool := match p with C1 _ | C2 _ => true | _ => false end.
+Definition is_cool12 (p : pc) : bool := match p with C1 _ | C2 _ | GCool3 _ | GBack _ => true | _ => false end.
 
 Definition next_top_not_cool (nx : next) : Prop :=
   match nx with
@@ -161,7 +161,8 @@ Qed.
 (** When does a step leave a cooldown frame on top? *)
 Definition exec_top_cool_spec (p : pc) (l l' : tlocal) (nx : next) : Prop :=
   match nx with
-  | NGoto p' => is_cool12 p' = true -> exists w, p = C1 w /\ p' = C2 w
+  | NGoto p' => is_cool12 p' = true ->
+                exists w, (p = C1 w /\ p' = C2 w) \/ (p = GCool2 w /\ p' = GCool3 w) \/ (p = GCool3 w /\ p' = GBack w)
   | NPush fs wt =>
       match fs with
       | f :: _ => is_cool12 f = true -> exists n r, tl_node l = Some n /\ tl_node l' = None /\ nx = NPush [C1 n] (WExit r)
@@ -502,7 +503,10 @@ Qed.
 Lemma waiting_not_cool p : is_waiting p = true -> is_cool12 p = false.
 Proof. destruct p; cbn; congruence. Qed.
 
-Lemma own_of_noncool l p : is_cool12 p = false -> own_of l p = tl_node l.
+Definition is_special (p : pc) : bool :=
+  match p with C1 _ | C2 _ | GCool2 _ | GCool3 _ | GBack _ => true | _ => false end.
+
+Lemma own_of_noncool l p : is_special p = false -> own_of l p = tl_node l.
 Proof. unfold own_of. destruct (tl_node l); [reflexivity|]. destruct p; cbn; congruence. Qed.
 
 (** ** One frame step preserves [WF2] and does not panic. *)
@@ -582,7 +586,7 @@ Proof.
     pose proof (unwind_node cf rest l' v) as Hu. destruct (unwind cf l' rest v); exact Hu. }
   assert (Hcool2 : match t_stack th2 with
                    | q :: _ => is_cool12 q = true ->
-                               (exists w, p = C1 w /\ q = C2 w) \/
+                               (exists w, (p = C1 w /\ q = C2 w) \/ (p = GCool2 w /\ q = GCool3 w) \/ (p = GCool3 w /\ q = GBack w)) \/
                                (exists n r, tl_node l = Some n /\ tl_node l' = None /\ nx = NPush [C1 n] (WExit r))
                    | [] => True
                    end).
@@ -622,9 +626,73 @@ Proof.
     - rewrite Hnn2, Hthr. exact Hstk2.
     - rewrite Hnn2, Hsh, Hthr. exact Htop2. }
   assert (Hiu2 : forall k, iu s2 k = mem s_sh (LInUse k)) by (intros; unfold iu; rewrite Hsh; reflexivity).
-  destruct (is_cool12 p) eqn:Hpc.
-  - (* start_cooldown frames: the holder is identified by the frame *)
+  destruct (is_special p) eqn:Hpc.
+  - (* frames that identify the holder themselves, and the take-over step *)
     destruct p; try discriminate; cbn in Hget; pose proof (Hget eq_refl) as Hnone.
+    + (* GCool2: take a cooled node over *)
+      cbn in He. unfold a_cas in He. cbn in He.
+      destruct (mem (sh s) (LInUse n) =? NODE_COOLDOWN) eqn:Hcd; cbn in He; injection He as Hs1 Hl1 Hev1 Hnx1.
+      * apply N.eqb_eq in Hcd. cbn in Hp.
+        assert (Hidle : node_idle (mem s_sh) n).
+        { eapply node_idle_foreign; [exact Efor|exact Hp|rewrite Hnone; discriminate|].
+          apply (w_unowned _ W _ Hp). intros t0 Hh0.
+          assert (Hu : mem (sh s) (LInUse n) = NODE_USED) by (apply (w_inuse _ W _ Hp); eauto).
+          rewrite Hcd in Hu. discriminate. }
+        apply Hgoal.
+        -- apply (hc_gain s s2 t n).
+           ++ left. split; [exact Hp|]. rewrite Hnn2, <- Hs1. unfold nn. cbn. apply upd_other. discriminate.
+           ++ unfold holder. fold th. fold l. rewrite Hnone, Hstk. reflexivity.
+           ++ rewrite Hthr. unfold th2, thread_after. rewrite <- Hnx1, <- Hl1. unfold holder. cbn. fold l. rewrite Hnone. reflexivity.
+           ++ intros k' Hk'. rewrite Hiu2, <- Hs1. unfold iu. cbn. apply upd_other. congruence.
+           ++ rewrite Hiu2, <- Hs1. cbn. apply upd_same.
+           ++ intros _. unfold iu. rewrite Hcd. discriminate.
+        -- intros n0 Hrun Hh. unfold th2, thread_after in *. rewrite <- Hnx1, <- Hl1 in *.
+           unfold holder in Hh. cbn in Hh. fold l in Hh. rewrite Hnone in Hh. injection Hh as <-. cbn. exact Hidle.
+      * (* the compare-exchange failed: nothing changes *)
+        apply Hgoal.
+        -- apply hc_same; [rewrite Hnn2, <- Hs1; reflexivity| |intros k; rewrite Hiu2, <- Hs1; reflexivity].
+           rewrite Hthr. unfold th2, thread_after. rewrite <- Hnx1, <- Hl1.
+           unfold holder. fold th. fold l. cbn. rewrite Hnone, Hstk. reflexivity.
+        -- intros n0 Hrun Hh. unfold th2, thread_after in Hh. rewrite <- Hnx1, <- Hl1 in Hh.
+           unfold holder in Hh. cbn in Hh. fold l in Hh. rewrite Hnone in Hh. discriminate.
+    + (* GCool3: holding the node, look at the writers *)
+      assert (Hown : own_of l (GCool3 n) = Some n) by (unfold own_of; rewrite Hnone; reflexivity).
+      cbn in He. unfold a_load in He. destruct (mem (sh s) (LWriters n) =? 0) eqn:Hz; injection He as Hs1 Hl1 Hev1 Hnx1.
+      * (* nobody inside: the node is ours *)
+        apply Hgoal.
+        -- apply hc_same; [rewrite Hnn2, <- Hs1; reflexivity| |intros k; rewrite Hiu2, <- Hs1; reflexivity].
+           rewrite Hthr. unfold holder at 2. fold th. fold l. rewrite Hnone, Hstk.
+           rewrite holder_after_noncool.
+           ++ rewrite Hl2, <- Hl1. reflexivity.
+           ++ unfold th2, thread_after. rewrite <- Hnx1.
+              pose proof (unwind_not_cool cf rest l' (RNode n)) as Hu. destruct (unwind cf l' rest (RNode n)); cbn; try exact I; exact Hu.
+        -- intros n0 Hrun Hh. apply Htop_same; [|exact Hrun]. rewrite Hown. rewrite <- Hh.
+           rewrite holder_after_noncool.
+           ++ rewrite Hl2, <- Hl1. reflexivity.
+           ++ unfold th2, thread_after. rewrite <- Hnx1.
+              pose proof (unwind_not_cool cf rest l' (RNode n)) as Hu. destruct (unwind cf l' rest (RNode n)); cbn; try exact I; exact Hu.
+      * (* a writer is still inside: give the node back *)
+        apply Hgoal.
+        -- apply hc_same; [rewrite Hnn2, <- Hs1; reflexivity| |intros k; rewrite Hiu2, <- Hs1; reflexivity].
+           rewrite Hthr. unfold th2, thread_after. rewrite <- Hnx1, <- Hl1.
+           unfold holder. fold th. fold l. cbn. rewrite Hnone, Hstk. reflexivity.
+        -- intros n0 Hrun Hh. apply Htop_same; [|exact Hrun]. rewrite Hown.
+           unfold th2, thread_after in Hh. rewrite <- Hnx1, <- Hl1 in Hh.
+           unfold holder in Hh. cbn in Hh. fold l in Hh. rewrite Hnone in Hh. exact Hh.
+    + (* GBack: the node returns to cooldown *)
+      assert (Hown : own_of l (GBack n) = Some n) by (unfold own_of; rewrite Hnone; reflexivity).
+      rewrite Hown in Eown.
+      cbn in He. unfold a_store in He. injection He as Hs1 Hl1 Hev1 Hnx1. rewrite <- Hnx1 in Eown.
+      apply Hgoal.
+      * apply (hc_lose s s2 t n).
+        -- rewrite Hnn2, <- Hs1. unfold nn. cbn. apply upd_other. discriminate.
+        -- unfold holder. fold th. fold l. rewrite Hnone, Hstk. reflexivity.
+        -- rewrite Hthr. unfold th2, thread_after. rewrite <- Hnx1, <- Hl1. unfold holder. cbn. fold l. rewrite Hnone. reflexivity.
+        -- intros k' Hk'. rewrite Hiu2, <- Hs1. unfold iu. cbn. apply upd_other. congruence.
+        -- rewrite Hiu2, <- Hs1. cbn. rewrite upd_same. discriminate.
+        -- rewrite Hsh. exact Eown.
+      * intros n0 Hrun Hh. unfold th2, thread_after in Hh. rewrite <- Hnx1, <- Hl1 in Hh.
+        unfold holder in Hh. cbn in Hh. fold l in Hh. rewrite Hnone in Hh. discriminate.
     + (* C1 *)
       cbn in He. unfold a_fadd in He. injection He as Hs1 Hl1 Hev1 Hnx1.
       apply Hgoal.
@@ -658,11 +726,12 @@ Proof.
     { intros Hcase. unfold holder. rewrite Hl2. destruct (tl_node l') eqn:Hn'; [reflexivity|].
       destruct (t_stack th2) as [|q st2]; [reflexivity|].
       destruct (is_cool12 q) eqn:Hq; [|destruct q; try reflexivity; discriminate].
-      exfalso. destruct (Hcool2 eq_refl) as [(w & Hpw & _)|(n0 & r & Hs & _ & _)]; [rewrite Hpw in Hpc; discriminate|].
+      exfalso. destruct (Hcool2 eq_refl) as [(w & [[Hpw _]|[[Hpw _]|[Hpw _]]])|(n0 & r & Hs & _ & _)];
+        try (rewrite Hpw in Hpc; discriminate).
       destruct Hcase as [Hc|Hc]; congruence. }
-    destruct Eiu as [(Hhd & Hiu & Hnode)|[(k & -> & Hhd & Hnode & Hiu & Hk & Hk')|
-                     [(k & Hpk & Hiu & Hfree & Hused & Hnode & -> & Hh1 & Hh2)|(k & -> & _)]]];
-      [| | |discriminate].
+    destruct Eiu as [(Hhd & Hiu & Hnode)|[(k & -> & _)|[(k & -> & _)|[(k & -> & _)|
+                     [(k & Hpk & Hiu & Hfree & Hused & Hnode & -> & Hh1 & Hh2)|(k & -> & _)]]]]];
+      [|discriminate|discriminate|discriminate| |discriminate].
     + destruct Hnode as [Hnode|(n0 & r & Hs & Hnone' & ->)].
       * (* nothing changed for the ownership *)
         apply Hgoal.
@@ -676,15 +745,6 @@ Proof.
            rewrite Hthr, Hbefore, Hs. unfold th2, thread_after, holder. cbn. rewrite Hnone'. reflexivity.
         -- intros n1 Hrun Hh. apply Htop_same; [|exact Hrun].
            rewrite Hown, Hs. unfold th2, thread_after, holder in Hh. cbn in Hh. rewrite Hnone' in Hh. exact Hh.
-    + (* check_cooldown's COOLDOWN -> UNUSED *)
-      apply Hgoal.
-      -- apply (hc_cool3 s s2 t k); [rewrite Hnn2; exact Hhd| | | |].
-         ++ rewrite Hthr, Hbefore, (Hafter_nc (or_introl Hnode)). exact Hnode.
-         ++ intros k' Hne. rewrite Hiu2. apply Hiu. exact Hne.
-         ++ exact Hk.
-         ++ rewrite Hiu2. exact Hk'.
-      -- intros n0 Hrun Hh. apply Htop_same; [|exact Hrun].
-         rewrite Hown, <- Hnode, <- (Hafter_nc (or_introl Hnode)). exact Hh.
     + (* a node is claimed (or pushed) *)
       assert (Hnone : tl_node l = None).
       { apply Hget. destruct Hpk as [->|[-> _]]; reflexivity. }
